@@ -66,7 +66,7 @@ PROPS = {
                 pending=['regex_cost_bound (abstract cost model under "the engine honours its timeout")']),
     'C06': dict(obligations=lambda: P('SqProps.C06') + TIE_PREC + TIE_TOK + TIE_LEX + TIE_GRAM,
                 slices=['parse_tok', 'parse_rand', 'lex_chars'], monitors=['c06'],
-                pending=['sound (parser ok -> RCode; completeness is proved for expressions, statements and programs)', 'reads_derives (levelled relation is a sub-relation of the plain CFG)']),
+                pending=['reads_derives (the levelled relation is a sub-relation of the plain CFG of the generated productions); completeness AND soundness w.r.t. the levelled relation are proved']),
     'C07': dict(obligations=lambda: P('SqProps.C07') + TIE_FN + TIE_CONST,
                 slices=['prog', 'ops'], monitors=[],
                 pending=['frame_lemma (compositionality of the machine)']),
